@@ -98,16 +98,16 @@ def _implied_post(cond, truth, result):
     }
     k = cls_name(cond)
     if k == 'Not':
-        out.update({'not_one_result': alist_parts(result) == 1})
+        out.update({'not_one_result': alist_parts_is(result, 1)})
     elif k == 'And':
         out.update({'and_false_nothing': implies(not truth, alist_len(result) == 0),
-                    'and_true_all_operands': alist_parts(result) == (len(cond.args) if truth else 0)})
+                    'and_true_all_operands': alist_parts_is(result, len(cond.args) if truth else 0)})
     elif k == 'Or':
         out.update({'or_true_nothing': implies(truth, alist_len(result) == 0),
-                    'or_false_all_operands': alist_parts(result) == (0 if truth else len(cond.args))})
+                    'or_false_all_operands': alist_parts_is(result, 0 if truth else len(cond.args))})
     elif k == 'Compare':
         out.update({'chain_nothing': implies(len(cond.ops) != 1, alist_len(result) == 0),
-                    'compare_one_result': alist_parts(result) == (1 if len(cond.ops) == 1 else 0)})
+                    'compare_one_result': alist_parts_is(result, 1 if len(cond.ops) == 1 else 0)})
     elif k in ('Var', 'BoolVal'):
         out.update({'other_nothing': alist_len(result) == 0})
     return out
